@@ -73,6 +73,15 @@ CLAIMED["C08"] = dict(
     technique="symbolic exploration of the real API code under nondeterministic environment stubs (choice forks), event-trace obligations; z3 for the occupation-dependent FCHK pre-flight check",
     ref="4/C08")
 
+CLAIMED["C03"] = dict(
+    text="Symbolic execution of the real readers (load_one/load_many) of SDF, PDB, GRO, MOL2, XYZ, extended XYZ, POSCAR, CHGCAR, LOCPOT, Cube, CHARMM crd and FCIDUMP on files produced by independent writers that follow the published layouts (specs/layouts.py): every numeric field is a symbolic term carried by a placeholder token of the exact printed width (one field per record may fill its column so that neighbouring fields touch), bond partners / CONECT serials are symbolic integers; z3 (and polynomial canonical forms for unit factors) proves every loaded value equal to the model value under the layout: units, index bases, per-atom attachment, grid index order, chemists'->physicists' 8-fold unpacking, direct/cartesian coordinates, scale factors.",
+    note="Other readers (fchk, gaussianlog, gamess, orca/qchem/cp2k logs, mwfn, wfn, wfx, molden, molekel, QCSchema) have no independent layout writer here; float32 storage precision and Fortran D exponents outside; unit constants themselves are the subject of C04; one recorded finding (PDB CONECT serial mapping).",
+    ref="4/C03")
+CLAIMED["C13"] = dict(
+    text="Symbolic execution of api.dump_many / load_many and the frame loops of XYZ, PDB, MOL2 and SDF on 1-3 (thorough 5) frames with differing atom counts and fully symbolic numbers: load_many(dump_many(frames)) yields the same number of frames, each equal (as terms) to a per-frame dump_one + load_one; generators are pulled lazily, once, in order, and an iterator error propagates; every truncation at a line boundary yields only complete frames (or warns/raises); a corrupted numeric field in any frame raises LoadError after exactly the preceding frames; GRO, extended-XYZ and XYZ multi-frame files from independent writers are covered by the C03 harness.",
+    note="More than 5 frames, byte-level truncation and multi-field corruption outside; FCHK optimisation/IRC trajectories not covered.",
+    ref="4/C13")
+
 NOT_YET = "check not built yet in this round (planned, see DESIGN.md section 4)"
 NA = {}
 
